@@ -1,6 +1,7 @@
 //! sccv — conformance harness binding the TLA+ specifications in /verif/spec to the real compiler.
 //! Rebuilt from /repo's working tree by every check (path dependencies).
 mod config;
+mod replay;
 mod ser_axcut;
 mod ser_core;
 mod ser_fun;
@@ -9,7 +10,7 @@ use printer::Print;
 use serde_json::{Value, json};
 use std::panic::{AssertUnwindSafe, catch_unwind};
 
-fn panic_msg(e: Box<dyn std::any::Any + Send>) -> String {
+pub fn panic_msg(e: Box<dyn std::any::Any + Send>) -> String {
     if let Some(s) = e.downcast_ref::<String>() {
         s.clone()
     } else if let Some(s) = e.downcast_ref::<&str>() {
@@ -19,7 +20,7 @@ fn panic_msg(e: Box<dyn std::any::Any + Send>) -> String {
     }
 }
 
-fn hash_str(s: &str) -> String {
+pub fn hash_str(s: &str) -> String {
     // FNV-1a 64: enough to compare artifacts across processes
     let mut h: u64 = 0xcbf29ce484222325;
     for b in s.as_bytes() {
@@ -209,6 +210,14 @@ fn main() {
                 index.push(pipeline_case(case, dir, &emit));
             }
             write(dir, "index", "json", &Value::Array(index).to_string());
+        }
+        Some("driver-replay") => {
+            // sccv driver-replay <spec.json> <workdir> <out.ndjson>: execute request histories on fresh Drivers in this process
+            let spec: Value = serde_json::from_str(&std::fs::read_to_string(&args[2]).unwrap()).unwrap();
+            let out_path = std::fs::canonicalize(std::path::Path::new(&args[4]).parent().unwrap()).unwrap().join(std::path::Path::new(&args[4]).file_name().unwrap());
+            std::fs::create_dir_all(&args[3]).unwrap();
+            std::env::set_current_dir(&args[3]).unwrap();
+            replay::driver_replay(&spec, &out_path);
         }
         Some("cdriver") => {
             // sccv cdriver <dir> <max number of arguments>: instantiate the repository's own C driver and io runtime
